@@ -166,15 +166,12 @@ impl World {
         let now = match latest {
             Some(l) if all_creating => l + CDuration::microseconds(us / 4),
             Some(l) if elapsed => l + CDuration::microseconds(us),
-            Some(l) => {
-                // strictly inside the interval of every subscription (they were created within
-                // microseconds of each other), but not before the last time used
-                let t = l + CDuration::microseconds(us / 2);
-                if t > self.last_now { t } else { self.last_now }
-            }
+            // strictly inside the interval of every subscription (they were created within
+            // microseconds of each other).  Every choice is relative to the time the implementation
+            // last saw the interval elapse, so the clock may step back after an interval change.
+            Some(l) => l + CDuration::microseconds(us / 2),
             None => self.last_now + CDuration::microseconds(if elapsed { us } else { 0 }),
         };
-        let now = if now > self.last_now { now } else { self.last_now };
         self.last_now = now;
         now
     }
